@@ -60,7 +60,7 @@ class CharRule:
 class Schema:
     def __init__(s, name, rules, root, ops, n=3, alphabet='x', props=(), extract='', support='', post='', types='',
                  nonzero=(), cmp_err=True, cmp_fields=True, custom_ws=None, nchk=0, user_ctx=None, derives=None,
-                 tracer=False, allow_sentinel=False, via_public=False, extern_str='', expect='ok', raw_ebnf=None, note='', kani=True, twin_of=None, root_call=None):
+                 tracer=False, allow_sentinel=False, via_public=False, extern_str='', isolated=False, expect='ok', raw_ebnf=None, note='', kani=True, twin_of=None, root_call=None):
         s.__dict__.update(locals()); del s.__dict__['s']
 
 # ------------------------------------------------------------------------------------------------ grammar text
